@@ -253,8 +253,56 @@ def finding_c08_d6(line, go):
     return None
 
 
+# --- client suite: the scripted server's own observations (the "!bad:" / "!pool:" tails of the result line) ---
+# The scripted peer keeps the flow-control ledger, decodes every request block with x/net and compares it with the
+# request the caller handed in, and watches deliveries; each observation is named in harness/cmd/h2v/client.go.
+_CLIENT_BAD = {
+    "C07": ("data-frame-", "connection-window-exceeded", "stream-", ),
+    "C18": ("data-frame-",),
+    "C02": ("block-", "headers-", "even-stream-id", "end-stream-on-headers", "dataflags"),
+    "C11": ("retryable-after-headers",),
+    "C12": ("second-delivery", "submit-while-write-held"),
+}
+
+
+def _client_tail(go, key):
+    for f in go.split(" !")[1:]:
+        if f.startswith(key + ":"):
+            return f[len(key) + 1:].split(",")
+    return []
+
+
+def client_oracle(pid):
+    pre = _CLIENT_BAD.get(pid, ())
+
+    def orc(line, go):
+        for b in _client_tail(go, "bad"):
+            if b.startswith(pre) and pre:
+                return "the scripted server observed: " + b
+        if pid in ("C12", "C19") and _client_tail(go, "pool"):
+            return "pool tracker: " + ",".join(_client_tail(go, "pool"))
+        if pid == "C12" and (":stuck" in go or "!panic" in go or "HANG" in go):
+            return "a caller was left waiting (or a panic was recovered) in: " + go[:200]
+        return None
+    return orc
+
+
+CLIENT_ORACLES = {pid: client_oracle(pid) for pid in ("C02", "C07", "C11", "C12", "C18", "C19")}
+
 FINDING_ORACLES = dict(SERVER_ORACLES)
 FINDING_ORACLES["c08-d1"] = finding_c08_d1
 FINDING_ORACLES["c08-d3"] = finding_c08_d3
 FINDING_ORACLES["c08-d6"] = finding_c08_d6
 FINDING_ORACLES["goaway-enhance-your-calm"] = finding_goaway_enhance_your_calm
+
+
+def finding_c18_client_headers(line, go):
+    """Known finding replay: the client put a HEADERS frame above 16384 bytes on the wire (no server in the replay case raises the limit)."""
+    for g in go.split(" !")[0].split(" / "):
+        for it in g.split(";"):
+            if it.startswith("H") and it.count(":") == 2 and hexlen(it.split(":")[2]) > 16384:
+                return "HEADERS frame of %d bytes with SETTINGS_MAX_FRAME_SIZE 16384" % hexlen(it.split(":")[2])
+    return None
+
+
+FINDING_ORACLES["c18-client-headers"] = finding_c18_client_headers
